@@ -240,7 +240,10 @@ def run(ctx: core.Ctx):
              "the default or to another plugin -> auth switch) and scripted plugins (success, forbidden, any number of more-data round "
              "trips, plugin failure), valid and truncated handshake responses, COM_CHANGE_USER with the same variants, followed by "
              "further commands; every 4th walk with socket faults; replayed on Model/Conn.v; oracle: no session call / non-ERR packet "
-             "after a refused exchange. distinct = traces",
+             "after a refused exchange; wire-level refusal sweep with the real provider and plugins over login histories (account bound "
+             "to a plugin by name / naming none / naming an unknown one, with and without a successful COM_CHANGE_USER first) x targets "
+             "(wrong password, unknown, no-login, names outside the results character set) x empty / wrong proofs, and handshakes "
+             "without a valid proof for every client capability set. distinct = traces",
         samples=[dict(events=drivers[1].events[:10])], distinct=len(drivers),
         extra=dict(traces=len(drivers), exchange_outcomes=outcomes, disagreements=len(disagreements)),
         assumptions=["plugins are modelled as arbitrary decision sequences (C02 decides what the built-in plugins decide)",
